@@ -55,7 +55,24 @@ func Mutate(r *core.Rng, src []byte, fields []Field, nops int) ([]byte, string) 
 		if len(fields) == 0 && op < 7 {
 			op = 7 + r.Intn(5)
 		}
+		var sizes []Field
+		if op < 2 {
+			for _, f := range fields {
+				if f.Kind == "size" {
+					sizes = append(sizes, f)
+				}
+			}
+		}
 		switch {
+		case op < 2 && len(sizes) > 0: // a box / segment / chunk over- or understates its size a little or a lot
+			f := sizes[r.Intn(len(sizes))]
+			old := GetField(b, f)
+			v := old + uint64(r.Pick(1, 7, 8, 16, 100, 1000, 100000))
+			if r.Chance(1, 4) {
+				v = old - uint64(r.Pick(1, 2, 4, 8))
+			}
+			PutField(b, f, v)
+			desc += fmt.Sprintf("resize@%d/%d:%d->%d;", f.Off, f.Width, old, v)
 		case op < 7: // field-directed
 			f := fields[r.Intn(len(fields))]
 			desc += MutateField(r, b, f) + ";"
